@@ -37,6 +37,8 @@
 (*   S15p (repaired; kept for the vacuity runs) the insert of a row that   *)
 (*        exists fails, the task aborts holding the state mutex and every  *)
 (*        later handler aborts too                                         *)
+(*   S22  a bad signature for an appointment that already has a receipt:   *)
+(*        the tower is flagged in memory only, no proof is persisted (C14) *)
 (*   S21  the retrier sends / loads whatever is in its set: an appointment *)
 (*        delivered meanwhile is sent again or, when its body is gone,     *)
 (*        makes the task abort holding the state mutex (C05)               *)
@@ -152,8 +154,17 @@ Record(c, t, l, kind, slots) ==
          \cup (IF Dev("S15") /\ kind # "pending" /\ ~SameRow(st.db, t, l, kind) /\ Kinds(st.db, t, l) \ {"pending"} # {}
                THEN {OkDev(AddKind(st, t, l, kind, slots), "S15")} ELSE {})
 
-\* the first proof against a tower is the one that is kept
-Flag(st, t, l) == IF HasProof(st.db, t) THEN st ELSE FlagMisbehaving(st, t, l)
+\* The receipt signed by somebody else is stored as the proof (it takes the place of a receipt (t, l) may have); the
+\* first proof against a tower is the one that is kept.  Outcome record as above.
+\* S22: when (t, l) already has a receipt the insert fails and is only logged: the tower is flagged in memory, no proof
+\* is persisted (after a restart it is trusted again).
+Flag(st, t, l) ==
+    IF HasProof(st.db, t) THEN st
+    ELSE FlagMisbehaving([st EXCEPT !.db.rcpts = {r \in @ : ~(r.t = t /\ r.l = l)}], t, l)
+FlagO(c, t, l) ==
+    IF Dev("S22") /\ Known(c, t) /\ ~HasProof(c.st.db, t) /\ HasRcpt(c.st.db, t, l)
+    THEN OkDev(SetStatus(c.st, t, "misbehaving"), "S22")
+    ELSE Ok(Flag(c.st, t, l))
 
 \* send_to_retrier: only a retrier that does not exist yet or is running is told
 Tell(c, t, l) == IF c.inmap[t] \in {"none", "running"} THEN c.chan \cup {[t |-> t, k |-> "fresh", ls |-> {l}]} ELSE c.chan
@@ -245,7 +256,7 @@ NotifyRecv(c, n) ==
                  ((IF Known(c, t) /\ (HasRcpt(c.st.db, t, l) \/ HasProof(c.st.db, t)) /\ Dev("S15p")
                    THEN {NotAfter(c, n, t, Poison(c.st), c.chan, {})}
                    ELSE {})
-                  \cup {NotAfter(c, n, t, Ok(Flag(c.st, t, l)), c.chan, {})})
+                  \cup {NotAfter(c, n, t, FlagO(c, t, l), c.chan, {})})
             [] r.cls = "garbage" ->
                  (NotPending(c, n, t, "conn", TRUE, {})
                   \cup {NotAfter(c, n, t, o, c.chan, {}) : o \in Record(c, t, l, "invalid", 0)}
@@ -253,7 +264,7 @@ NotifyRecv(c, n) ==
             [] r.cls = "malsig" ->
                  (NotPending(c, n, t, "conn", TRUE, {})
                   \cup {NotAfter(c, n, t, o, c.chan, {}) : o \in Record(c, t, l, "invalid", 0)}
-                  \cup {NotAfter(c, n, t, Ok(Flag(c.st, t, l)), c.chan, {})})
+                  \cup {NotAfter(c, n, t, FlagO(c, t, l), c.chan, {})})
             [] OTHER -> {})
     \cup (IF r.cls = "malsig" /\ Dev("S14") /\ ~c.poisoned
           THEN {[NotDies(c, n) EXCEPT !.dev = @ \cup {"S14"}]}      \* aborts outside the mutex
@@ -483,7 +494,8 @@ RunEnd(c, t) ==
            [] r.pc = "end_misb" ->
                 (IF Known(c, t) /\ (HasRcpt(c.st.db, t, r.cur) \/ HasProof(c.st.db, t)) /\ Dev("S15p")
                  THEN {[RunDies(c, t) EXCEPT !.poisoned = TRUE, !.dev = @ \cup {"S15"}]} ELSE {})
-                \cup {[done EXCEPT !.st = Flag(@, t, r.cur), !.rt[t] = [RetAbsent EXCEPT !.s = "failed"]]}
+                \cup {[done EXCEPT !.st = FlagO(c, t, r.cur).st, !.dev = @ \cup FlagO(c, t, r.cur).dev,
+                                   !.rt[t] = [RetAbsent EXCEPT !.s = "failed"]]}
            [] r.pc = "end_gone" -> {[done EXCEPT !.rt[t] = [RetAbsent EXCEPT !.s = "failed"]]}
 
 -----------------------------------------------------------------------------
